@@ -376,6 +376,20 @@ pub fn diff_bytes(bytes: &[u8], obs: &mut Obs) -> Result<(), Fail> {
     Ok(())
 }
 
+// ------------------------------------------------------------------ coverage-guided lane (libFuzzer)
+
+fn fuzz_spec() -> crate::fuzzlane::FuzzSpec {
+    crate::fuzzlane::FuzzSpec { target: "ber_parse", oracle: diff_bytes, seeds: crate::fuzzlane::seeds_ber, max_len: 4096, runs_per_worker: 2000000 }
+}
+
+fn fuzz_run(ctx: &Ctx, known: &[crate::runner::KnownFinding]) -> crate::runner::LaneReport {
+    crate::fuzzlane::run(&fuzz_spec(), ctx, known)
+}
+
+fn fuzz_replay(v: serde_json::Value) -> Result<(), Fail> {
+    crate::fuzzlane::replay(&fuzz_spec(), v)
+}
+
 pub fn property() -> Property {
     Property {
         id: "C07",
@@ -391,6 +405,7 @@ pub fn property() -> Property {
             Box::new(PLane { name: "typed", cases: |t| t.pick(4_000, 80_000), strat: tt_strat, check: check_typed }),
             Box::new(PLane { name: "forms", cases: |t| t.pick(5_000, 100_000), strat: forms_strat, check: check_forms }),
             Box::new(PLane { name: "bytes", cases: |t| t.pick(10_000, 300_000), strat: bytes_strat, check: check_bytes }),
+            Box::new(crate::runner::FnLane { name: "fuzz", run: fuzz_run, replay: fuzz_replay }),
         ],
         workers: (8, 16),
     }
